@@ -676,7 +676,8 @@ func verbatimLiteralCase(ctx *core.Ctx, idx int, res *core.Result, g *gen.G) {
 			res.Violate("C03/engine-error", "literal on the '+' side: "+run.Err, rep)
 			return
 		}
-		if c := strings.Count(run.Out, lit); c != ns {
+		// (", lit)": an argument of a site may happen to be the same literal)
+		if c := strings.Count(run.Out, ", "+lit+")"); c != ns {
 			res.Violate("C03/plus-literal-not-verbatim", fmt.Sprintf("the '+' side spells the literal %q; it stands %d times in the output, there are %d sites", lit, c, ns), rep)
 			return
 		}
